@@ -74,12 +74,13 @@ bool decode_header(const sim::Image &img, File &f) {
                 if (d >= (long long)f.dims.size()) { f.problems.push_back("variable '" + v.name + "' refers to undefined dimension " + std::to_string(d)); r.ok = false; break; }
                 v.dimids.push_back(d); v.shape.push_back(f.dims[(size_t)d].len);
                 if (f.dims[(size_t)d].len == 0) { if (k != 0) { f.problems.push_back("variable '" + v.name + "': unlimited dimension not first"); } v.isrec = true; }
-                else { if (v.nelems_per_rec > 0 && f.dims[(size_t)d].len > (1LL << 40) / v.nelems_per_rec) v.nelems_per_rec = -1; else if (v.nelems_per_rec >= 0) v.nelems_per_rec *= f.dims[(size_t)d].len; }
+                else { if (v.nelems_per_rec > 0 && f.dims[(size_t)d].len > 0x7fffffffffffffffLL / v.nelems_per_rec) v.nelems_per_rec = -1; else if (v.nelems_per_rec >= 0) v.nelems_per_rec *= f.dims[(size_t)d].len; }
             }
             if (!r.ok) break;
             if (!rd_atts(r, w, v.atts, "variable '" + v.name + "'")) break;
             v.type = (int)r.be(4); int ts = type_size(v.type);
             if (r.ok && (!ts || (f.version < 5 && v.type > 6))) { f.problems.push_back("variable '" + v.name + "' has invalid type " + std::to_string(v.type)); r.ok = false; break; }
+            if (r.ok && v.nelems_per_rec > 0 && v.nelems_per_rec > (0x7fffffffffffffffLL - 3) / ts) v.nelems_per_rec = -1;   // byte size not representable: no size arithmetic on it
             v.vsize = r.be(w); v.begin = r.nonneg(f.version == 1 ? 4 : 8, "variable begin");
             f.vars.push_back(v);
         }
